@@ -101,8 +101,9 @@ def realpathSegs (t : Tree_) (fuel : Nat) (resolveLast : Bool) : List Bytes → 
       | .link tg =>
         match (resolveLink t fuel tg resolved []).1 with
         | .ok p' => realpathSegs t fuel resolveLast rest p'
-        -- `fs.NormalizeIOError` applied a second time to an already categorized error yields `fs-misc`
-        | .err _ _ => .err .misc resolved
+        -- the error keeps its category on the way out (until the `fix:` `fs.NormalizeIOError`, applied a second time to an
+        -- already categorized error, turned it into `fs-misc`: a cycle was reported without the recursion category)
+        | .err c _ => .err c resolved
         | r => r
 
 def numLinks (t : Tree_) : Nat := (t.filter (fun kv => match kv.2 with | .link _ => true | _ => false)).length
